@@ -620,4 +620,52 @@ theorem remaining_sendNextRequest (s : State α) (h1 : 1 ≤ s.batchSize)
     simp [fetchHeights]
     omega
 
+/-- heights received + heights still owed = length of the range -/
+theorem inv_length (ht : α → Nat) (M : Nat) (r : Range) (s : State α) (h : Inv ht M r s) :
+    s.responses.flatten.length + remaining s = rangeLen r := by
+  have hperm : (heights ht s).Perm (List.range' r.1 (rangeLen r)) := List.perm_iff_count.mpr h.count
+  have hlen := hperm.length_eq
+  have hsum : ∀ ts : List Req, (ts.flatMap taskHeights).length = (ts.map (·.2)).sum := by
+    intro ts
+    induction ts with
+    | nil => rfl
+    | cons t ts ih => simp [List.flatMap_cons, taskHeights, ih]
+  simp only [heights, List.length_append, List.length_map, List.length_range', hsum] at hlen
+  simp only [remaining]; omega
+
+theorem remaining_zero_tasks (ht : α → Nat) (M : Nat) (r : Range) (s : State α) (h : Inv ht M r s)
+    (h0 : remaining s = 0) : s.tasks = [] := by
+  simp only [remaining] at h0
+  cases hts : s.tasks with
+  | nil => rfl
+  | cons t ts =>
+    exfalso
+    have := h.amt t (by rw [hts]; simp)
+    rw [hts] at h0
+    simp at h0
+    omega
+
+theorem sendNextRequest_responses (s : State α) : (sendNextRequest s).responses = s.responses := by
+  rcases sendNextRequest_cases s with ⟨_, he⟩ | ⟨b, _, he⟩ <;> rw [he] <;> rfl
+
+/-- an answered request appends exactly its headers to what was received -/
+theorem step_ok_flatten (s : State α) (h a : Nat) (hs : List α) (hr : s.status = .running)
+    (hm : (h, a) ∈ s.tasks) :
+    (step s (.ok h a hs)).responses.flatten = s.responses.flatten ++ hs := by
+  rw [step_eq s (.ok h a hs) hr hm]
+  by_cases h0 : 0 < hs.length
+  · simp only [if_pos h0]
+    split
+    · split <;> simp [sendRequest]
+    · simp [sendNextRequest_responses]
+  · have hz : hs = [] := by
+      cases hs with
+      | nil => rfl
+      | cons _ _ => simp at h0
+    simp only [if_neg h0]
+    split
+    · split <;> simp [sendRequest, hz]
+    · simp [sendNextRequest_responses, hz]
+
+
 end Lumina.Proofs.Session
